@@ -388,6 +388,7 @@ func (d *Driver) writeEvidence(prop string, results []oblResult, discharged int,
 		"solver_discharge_counts":  solverCount,
 		"solver_ms_total":          totalMs,
 		"slow_queries":             slow,
+		"queries_retried_with_longer_timeout": d.retried,
 		"not_proved":               d.notProved,
 		"known_findings_printed":   known,
 		"obligation_results":       results,
